@@ -129,7 +129,7 @@ namespace GeographicLib {
       r = hypot(sphi2, cphi2);
       sphi2 /= r; cphi2 /= r;
     }
-    bool polar = (cphi1 == 0);
+    bool polar = (cphi1 == 0 && cphi2 == 0);
     cphi1 = fmax(epsx_, cphi1);   // Avoid singularities at poles
     cphi2 = fmax(epsx_, cphi2);
     // Determine hemisphere of tangent latitude
